@@ -1,6 +1,5 @@
-(* C04/Proofs5.v -- the Scanner API (Iter.Scanner: Next then Scan).  iterScanner.Scan finds the cell of a
-   column at the index of the *destination*, so it delivers the right cells exactly when every column
-   but the last scans into one destination. *)
+(* C04/Proofs5.v -- the Scanner API (Iter.Scanner: Next reads the cells of a row, Scan distributes them
+   over the destinations): the same cells as Iter.Scan. *)
 From GocqlV Require Import Lib.Base Gen.Consts C04.Model C04.Spec C04.Proofs1 C04.Proofs2 C04.Proofs3 C04.Proofs4.
 
 Arguments Z.mul : simpl never.
@@ -41,65 +40,41 @@ Proof.
   obind. fold (enc_row row'). rewrite IH by assumption. rewrite out_ret. reflexivity.
 Qed.
 
-(* every column but the last scans into exactly one destination *)
-Definition one_dest_before_last (cols : list scol) : Prop := Forall (fun c => col_width c = 1) (removelast cols).
-
-Lemma removelast_cons2 {A} (x y : A) l : removelast (x :: y :: l) = x :: removelast (y :: l).
-Proof. reflexivity. Qed.
-
-Lemma nth_error_app_len {A} (l1 l2 : list A) x : nth_error (l1 ++ x :: l2) (length l1) = Some x.
-Proof. induction l1 as [|y l1 IH]; [reflexivity | exact IH]. Qed.
-
-Lemma scanner_cols_enc g : forall todo (done : list scol) (row_done row_todo : list scell),
-  length row_done = length done -> Forall no_empty_tuple todo -> wf_row todo row_todo -> one_dest_before_last todo ->
-  scanner_cols (map (view_col g) todo) (map raw_cell (row_done ++ row_todo)) (length done) (scan_width todo)
-  = Ok (view_row todo row_todo).
+Lemma scanner_cols_enc g : forall cols row, wf_row cols row ->
+  scanner_cols (map (view_col g) cols) (map raw_cell row) (scan_width cols) = Ok (view_row cols row).
 Proof.
-  induction todo as [|c todo IH]; intros done row_done row_todo Hlen Hne Hw H1;
-    inversion Hw as [|? cellv ? row' Hc Hrow]; subst; [reflexivity|].
-  inversion Hne as [|? ? Hc1 Hne']; subst. pose proof (col_width_pos c Hc1) as Hpos. pose proof (scan_width_nonneg todo) as Hnn.
-  cbn [map scanner_cols]. rewrite map_app. cbn [map]. rewrite <- Hlen, <- (map_length raw_cell row_done).
-  rewrite nth_error_app_len. rewrite map_length. rewrite Hlen.
-  rewrite scan_width_cons. destruct (Z.leb_spec (col_width c + scan_width todo) 0); [lia|].
-  unfold view_row. cbn [combine map concat fst snd]. unfold view_cells. unfold view_col at 1. cbn [c_type].
-  (* the continuation: the next column is looked up at index length done + width c *)
-  assert (Hnext : forall w, (todo = [] \/ w = 1%nat) ->
-            scanner_cols (map (view_col g) todo) (map raw_cell row_done ++ raw_cell cellv :: map raw_cell row') (length done + w)
-                         (scan_width todo) = Ok (view_row todo row')).
-  { intros w Hw1. destruct Hw1 as [-> | ->].
-    - inversion Hrow; subst. reflexivity.
-    - replace (length done + 1)%nat with (length (done ++ [c])) by (rewrite app_length; simpl; lia).
-      replace (map raw_cell row_done ++ raw_cell cellv :: map raw_cell row') with (map raw_cell ((row_done ++ [cellv]) ++ row'))
-        by (rewrite !map_app; cbn [map]; rewrite <- app_assoc; reflexivity).
-      apply IH; [rewrite !app_length; simpl; lia | assumption | assumption |].
-      unfold one_dest_before_last in *. destruct todo as [|c2 todo2]; [constructor|]. rewrite removelast_cons2 in H1. inversion H1; assumption. }
-  assert (Hw1 : todo = [] \/ col_width c = 1).
-  { destruct todo as [|c2 todo2]; [left; reflexivity|]. right. unfold one_dest_before_last in H1. rewrite removelast_cons2 in H1. inversion H1; assumption. }
-  unfold wf_cell in Hc. unfold col_width in *.
+  induction cols as [|c cols IH]; intros row Hw; inversion Hw as [|? cellv ? row' Hc Hrow]; subst; [reflexivity|].
+  pose proof (scan_width_nonneg cols) as Hnn.
+  cbn [map scanner_cols]. unfold view_row. cbn [combine map concat fst snd]. rewrite scan_width_cons.
+  unfold wf_cell in Hc. unfold col_width in *. unfold view_cells.
+  change (c_type (view_col g c)) with (view_type (sc_type c)).
   destruct (sc_type c) as [cl|id|e|k v|e|ks n fs|es] eqn:Et; destruct cellv as [v0|comps]; try contradiction;
     try (cbn [view_type raw_cell];
-         replace (1 + scan_width todo - 1) with (scan_width todo) by lia;
-         replace (S (length done)) with (length done + 1)%nat by lia;
-         rewrite Hnext by (right; reflexivity); reflexivity).
-  (* tuple column *)
-  rewrite view_type_tuple. rewrite map_length. fold (count es).
-  destruct (Z.gtb_spec (count es) (count es + scan_width todo)); [lia|].
-  assert (Hwn : todo = [] \/ length es = 1%nat) by (destruct Hw1 as [Hw1|Hw1]; [left; exact Hw1 | right; unfold count in Hw1; lia]).
-  destruct comps as [comps|].
-  - destruct Hc as (Hl & Hwf & Hsz). cbn [raw_cell opt_bytes]. rewrite unmarshal_tuple_cells_enc by assumption.
-    replace (count es + scan_width todo - count es) with (scan_width todo) by lia. rewrite Hnext by assumption. reflexivity.
-  - cbn [raw_cell opt_bytes].
-    assert (U0 := unmarshal_tuple_cells_enc es [] ltac:(simpl; lia) ltac:(constructor)). cbn [map concat] in U0. rewrite U0.
-    replace (count es + scan_width todo - count es) with (scan_width todo) by lia. rewrite Hnext by assumption. reflexivity.
+         destruct (Z.leb_spec (1 + scan_width cols) 0); [lia|];
+         replace (1 + scan_width cols - 1) with (scan_width cols) by lia;
+         rewrite IH by assumption; reflexivity).
+  rewrite view_type_tuple. pose proof (Zle_0_nat (length es)) as Hce. fold (count es) in Hce.
+  assert (Hcells : out (unmarshal_tuple_cells (map view_type es)) (opt_bytes (raw_cell (CellTuple comps)))
+                   = Ok (pad_components es (match comps with Some l => l | None => [] end), [])).
+  { destruct comps as [l|].
+    - destruct Hc as (Hlen & Hwf & _). cbn [raw_cell opt_bytes]. apply unmarshal_tuple_cells_enc; assumption.
+    - cbn [raw_cell opt_bytes]. assert (U0 := unmarshal_tuple_cells_enc es [] ltac:(simpl; lia) ltac:(constructor)). exact U0. }
+  destruct (Z.leb_spec (count es + scan_width cols) 0) as [Hz|Hpos].
+  - assert (es = []) by (apply count_zero_nil; lia). subst es. cbn [map].
+    replace (count [] + scan_width cols) with (scan_width cols) by (unfold count; simpl length; lia).
+    rewrite IH by assumption. cbn [pad_components app]. reflexivity.
+  - rewrite map_length. fold (count es). destruct (Z.gtb_spec (count es) (count es + scan_width cols)); [lia|].
+    rewrite Hcells. replace (count es + scan_width cols - count es) with (scan_width cols) by lia.
+    rewrite IH by assumption. reflexivity.
 Qed.
 
-Lemma scanner_steps_enc m : sm_nometa m = false -> Forall no_empty_tuple (sm_cols m) -> one_dest_before_last (sm_cols m) ->
+Lemma scanner_steps_enc m : sm_nometa m = false ->
   forall rows pos, Forall (wf_row (sm_cols m)) rows -> 0 <= pos ->
   scanner_steps (S (length rows)) (view_meta m) (pos + count rows) (scan_width (sm_cols m))
                 {| it_pos := pos; it_err := None; it_buf := enc_rows rows |}
   = map (fun r => SRow (view_row (sm_cols m) r)) rows ++ [SFalse None].
 Proof.
-  intros Hn Hne H1. induction rows as [|row rows IH]; intros pos Hw Hp.
+  intros Hn. induction rows as [|row rows IH]; intros pos Hw Hp.
   - cbn [scanner_steps scanner_step it_err it_pos length map app]. unfold count. cbn [length].
     destruct (Z.geb_spec pos (pos + Z.of_nat 0)); [reflexivity|lia].
   - inversion Hw; subst. cbn [length]. cbn [scanner_steps]. unfold scanner_step at 1. cbn [it_err it_pos it_buf].
@@ -108,8 +83,7 @@ Proof.
     unfold enc_rows. cbn [map concat]. unfold view_meta at 1. cbn [m_cols]. rewrite Hn.
     rewrite read_cells_enc by assumption.
     unfold view_meta at 1 2. cbn [m_actual m_cols]. rewrite Hn. rewrite Z.eqb_refl. cbn [negb].
-    pose proof (scanner_cols_enc (sm_global m) (sm_cols m) [] [] row eq_refl Hne ltac:(assumption) H1) as Hs.
-    cbn [app length] in Hs. rewrite Hs.
+    rewrite scanner_cols_enc by assumption.
     cbn [map app]. f_equal. fold (enc_rows rows).
     replace (pos + Z.of_nat (S (length rows))) with ((pos + 1) + Z.of_nat (length rows)) by lia.
     apply IH; [assumption | lia].
